@@ -1214,7 +1214,9 @@ pub struct MemArg {
     /// The alignment of the memory operation, must be a power of two
     pub align: u32,
     /// The offset of the memory operation, in bytes from the source address
-    pub offset: u32,
+    ///
+    /// 64-bit memories can use the full 64 bits.
+    pub offset: u64,
 }
 
 /// The different kinds of atomic rmw operations
